@@ -7,6 +7,6 @@ trap 'git -C /repo worktree remove --force '$W EXIT
 cd $W && git apply $d/patch.diff || { echo "PATCH DOES NOT APPLY"; exit 2; }
 echo "--- files changed:"; git diff --stat | tail -3
 echo "--- test suite with the change:"; /venv/bin/python -m pytest -q -p no:cacheprovider --timeout=900 -n 8 2>&1 | tail -4 | cut -c1-150 | grep -E "passed|failed|FAILED"
-echo "--- demo with the change (must fail):"; JAX_PLATFORMS=cpu timeout 900 /venv/bin/python $d/demo.py > /tmp/vseed_demo1.out 2>&1; echo "exit=$?"; tail -3 /tmp/vseed_demo1.out
+echo "--- demo with the change (must fail):"; JAX_PLATFORMS=cpu timeout 900 /venv/bin/python $d/demo.py > /tmp/vseed_demo1_$$.out 2>&1; echo "exit=$?"; tail -3 /tmp/vseed_demo1_$$.out
 git checkout -q -- .
-echo "--- demo without the change (must pass):"; JAX_PLATFORMS=cpu timeout 900 /venv/bin/python $d/demo.py > /tmp/vseed_demo2.out 2>&1; echo "exit=$?"; tail -2 /tmp/vseed_demo2.out
+echo "--- demo without the change (must pass):"; JAX_PLATFORMS=cpu timeout 900 /venv/bin/python $d/demo.py > /tmp/vseed_demo2_$$.out 2>&1; echo "exit=$?"; tail -2 /tmp/vseed_demo2_$$.out
